@@ -25,30 +25,51 @@ PENDING = {x for x in _os.environ.get('PYVC_C19_PENDING', '').split(',') if x}
 
 ASSUMPTIONS = [
     'AnyStr is instantiated at bytes (self._encoding is None); the str instantiation runs the same statements over '
-    'str with the same sequence algebra',
+    'str with the same sequence algebra (it is exercised only by the bounded native stand-in)',
     'rely condition at every await inside read/readuntil (read lock held): the environment appends only at the tail '
-    'of the locked buffer (data_received / connection_lost / exception_received contracts), EOF and connection-lost '
-    'flags are monotone, _limit is not changed; everything else it may change is havocked',
+    'of the locked buffer and keeps the list object (guarantees of data_received / connection_lost / '
+    'exception_received, proved here), EOF and connection-lost flags are monotone, _limit is not changed; everything '
+    'else it may change is havocked.  API-USAGE ASSUMPTION: SSHProcess.feed_recv_buf (setting up a redirection) and '
+    'SSHClientProcess.collect_output() consume from the head WITHOUT the read lock, so the rely excludes them running '
+    'while a reader of the same datatype is suspended.  For collect_output() that mix is also broken in the code '
+    '(it replaces the list object: duplicate delivery, notes/findings/c19_collect_output_duplicates.py - reported; '
+    'clause `buffer-list-object-is-kept` with PYVC_C19_PENDING=rebind)',
+    'progress is proved only in the form "a reader suspends only when no result can be produced from its buffer, not '
+    'after EOF and (readuntil) not while the channel is paused"; that the environment eventually delivers data or EOF '
+    'is not decided',
     'flat/units/dlen/ok/cat are uninterpreted; only instances of their recursive definitions (empty, cons, '
     'append homomorphism) are assumed',
     'exception markers in the buffer are instances of Exception (type annotation of connection_lost / '
     'exception_received)',
-    'a dict is iterated as a duplicate-free sequence of exactly its keys',
-    'stubs resume_stub / await_stub used inside read, readuntil, feed_recv_buf, _collect_output are the constructive '
-    'forms of the contracts PROVED for _maybe_resume_reading (Spec maybe_resume) and _block_read (Spec block_read); '
-    'chan.resume_reading() may synchronously deliver buffered packets, so it is an environment step',
+    'a dict is iterated as a duplicate-free sequence of exactly its keys; a set of futures as a sequence',
+    'stubs resume_stub / await_stub / block_stub used inside read, readuntil, feed_recv_buf, _collect_output are the '
+    'constructive forms of the contracts PROVED for _maybe_resume_reading (Spec maybe_resume) and _block_read (Spec '
+    'block_read); chan.resume_reading() may synchronously deliver buffered packets, so it is an environment step; '
+    'unblock_drain_stub is the contract proved for _unblock_drain (Spec unblock_drain)',
     'class invariants assumed after a suspension (accounting, no empty chunk, flow-control invariant J) are proved on '
-    'the writers covered here: data_received, connection_lost, eof_received, exception_received, read, readuntil, '
-    'readline, SSHProcess.feed_recv_buf, SSHClientProcess._collect_output.  NOT covered: connection_made (initial '
-    'state), SSHTunTapStreamSession.read (packet-preserving override), SSHProcess.data_received/eof_received '
-    '(dispatch to redirection writers), pause_feeding/resume_feeding',
+    'the writers covered here: data_received, connection_lost, eof_received (flag only), exception_received, read, '
+    'readuntil, readline, SSHProcess.data_received, SSHProcess.feed_recv_buf, SSHClientProcess._collect_output.  '
+    'NOT covered: connection_made (initial state), SSHTunTapStreamSession.read (packet-preserving override), '
+    'SSHProcess.eof_received / connection_lost (iterate the redirection tables), pause_feeding / resume_feeding '
+    '(J is assumed, not proved, across them)',
     '_should_pause_reading() is dispatched dynamically; SSHProcess ors in bool(_paused_write_streams), modelled by '
-    'the ghost flag ghost_pws and not verified against process.py',
-    '_unblock_drain (iterates a set of futures) is represented by its effect "drainers of that datatype woken"',
-    'a reader cancelled while suspended loses what it had already taken out of the buffer (CancelledError: no clause)',
+    'the ghost flag ghost_pws and not verified against process.py.  _should_block_drain() likewise: both versions '
+    '(SSHStreamSession, SSHProcess: or a redirection source feeds the datatype) are proved; a plain stream session is '
+    'taken to have no redirection sources',
+    'SSHClientProcess._collect_output requires "at most one exception marker, and only as the last element" (markers '
+    'reach a client process only through connection_lost(), after which nothing is appended; exception_received is a '
+    'server-session method): a class fact NOT proved on the writers; if it is false the code raises TypeError in sum()',
+    'redirection targets (writer stubs): write() may push back synchronously (pause_feeding) or fail with OSError; '
+    'on a failing write feed_recv_buf has already released the byte count of the chunks copied so far while they stay '
+    'buffered - accounting is NOT re-established on that path (declared, clause states only the prefix copied); '
+    'write_exception / write_eof are taken not to re-enter the session',
+    'a reader cancelled while suspended loses what it had already taken out of the buffer: REPORTED defect '
+    '(notes/findings/c19_cancelled_read_loses_data.py); the clause "a cancelled read consumes nothing" is generated '
+    'with PYVC_C19_PENDING=cancel and fails on the tree as it stands; without it CancelledError has no clause',
     'regex separators (compiled Pattern + max_separator_len) and lists of separators are delegated to `re`: they are '
-    'exercised natively over all chunkings of all streams of <= 5 (thorough: 6) units (bounded stand-in, not a proof); '
-    'literal separators and the newline sentinel are proved',
+    'exercised natively over all chunkings of all streams of <= 5 (thorough: 6) units (bounded stand-in, not a proof; '
+    'a crash or hang of a case is a violation, a harness failure makes the check undecided); literal separators and '
+    'the newline sentinel are proved',
     '"complete output comes with the exit status" (ordering of data, EOF, exit-status and close across channel and '
     'process; communicate()/wait()) and redirections to OS-level targets are NOT decided here: only the pieces '
     'listed as functions under contract are',
@@ -1205,6 +1226,9 @@ data_received = Spec(
         ('no-empty-chunk-left', lambda c: R.ok(buf(c))),
         ('flow-control-invariant', lambda c: flow_inv(c)),
         ('reader-woken-when-data-arrived', lambda c: z3.Implies(z3.Length(c.arg('data')) > 0, woken(c))),
+        # the other half of J: once the buffered amount reaches the limit the channel is told to stop delivering
+        ('reading-paused-when-the-limit-is-reached',
+         lambda c: z3.Implies(z3.And(z3.Length(c.arg('data')) > 0, should_pause(c)), c.new('_read_paused'))),
     ])
 data_received.abstract_fns = ABSTRACT
 
@@ -1486,12 +1510,14 @@ feed_recv_buf = Spec(
     lemmas=lambda c: auto_lemmas(c, extra=[R.flat(buf(c)), R.dlen(buf(c)), R.ok(buf(c))]),
     ensures=[
         # "redirections copy all data and then EOF"
-        ('everything-buffered-is-copied-in-order-then-eof-iff-received',
+        ('everything-buffered-is-copied-in-order',       # ... and THEN the EOF mark, iff EOF had been received
          lambda c: c.new('ghost_fed') == z3.If(
              c.old('_eof_received'),
              z3.Concat(c.old('ghost_fed'), R.flat(buf(c, False)), EOF_UNIT),
              z3.Concat(c.old('ghost_fed'), R.flat(buf(c, False))))),
         ('buffer-emptied', lambda c: R.flat(buf(c)) == app_delta(c)),
+        ('eof-forwarded-iff-received-and-after-the-data',
+         lambda c: z3.BoolVal(len(c.events('write_eof')) == 1) == c.old('_eof_received')),
         ('buffer-length-accounting', lambda c: accounted(c)),
         ('no-empty-chunk-left', lambda c: R.ok(buf(c))),
         ('flow-control-invariant', lambda c: flow_inv(c)),
@@ -1606,8 +1632,12 @@ def extra_checks(tier, seed):
     try:
         p = subprocess.run(['/venv/bin/python', script, str(seed), str(maxlen)], capture_output=True, text=True,
                            env=dict(os.environ, PYTHONPATH=extract.REPO), timeout=300, cwd='/')
+        if p.returncode != 0:
+            raise RuntimeError('stand-in exited with %d: %s' % (p.returncode, p.stderr[-300:]))
         out = json.loads(p.stdout)
         bounded = {'name': name, 'inputs': out['cases'], 'violations': out['violations']}
+        if not out['cases']:
+            bounded['error'] = 'no cases were run'
     except Exception as e:      # harness trouble is never a verdict
         bounded = {'name': name, 'inputs': 0, 'violations': [], 'error': repr(e)}
     return {'lemmas': lemmas, 'bounded': [bounded]}
@@ -1639,6 +1669,28 @@ process_data_received = Spec(
             data_received_post(c), c.new('ghost_fed') == c.old('ghost_fed')))),
         ('buffer-length-accounting', lambda c: accounted(c)),
         ('no-empty-chunk-left', lambda c: R.ok(buf(c))),
+        ('flow-control-invariant', lambda c: flow_inv(c)),
     ],
     raises={'OSError': lambda c: has_writer(c)})
 process_data_received.abstract_fns = ABSTRACT
+
+
+# ================================================================== "complete output comes with the exit status / close"
+# The process layer reports exit (wait / communicate / run) when the channel is cleaned up (session.connection_lost).
+# That the output is complete at that point is the channel-level ordering C07 proves for SSHChannel._flush_recv_buf;
+# the two call-site obligations this property rests on are re-generated here under C19 from the SAME contract object:
+#   pre-at-call(self._loop.call_soon:cleanup-only-after-all-buffered-data)       close acted on only with an empty buffer
+#   pre-at-call(self._session.eof_received:eof-reported-only-after-all-buffered-data)
+def _flush_recv_buf_for_c19():
+    import copy
+    from . import c07
+    sp = copy.copy(c07.flush_recv_buf)
+    sp.prop = PROP
+    keep = ('delivered-in-fifo-order-nothing-lost-or-duplicated', 'eof-reported-only-when-pending-and-drained')
+    sp.ensures = [(l, f) for (l, f) in sp.ensures if l in keep]
+    sp.notes = 'contract object of contracts/c07.py (flush_recv_buf), clauses reduced to what C19 relies on'
+    Spec.registry.append(sp)
+    return sp
+
+
+channel_flush_recv_buf = _flush_recv_buf_for_c19()
